@@ -1,4 +1,6 @@
 """C24  Star sets are complete symmetry orbits of reachable pair states."""
+import os
+
 import numpy as np
 from hypothesis import strategies as st
 
@@ -228,7 +230,7 @@ def run(ctx):
     if ctx.quick:
         base = [c for c in base if c["N"] <= 2]
     ctx.cases([c for i, c in enumerate(base) if ctx.mine(i)], chk, label="catalogue")
-    ctx.given(cases(), chk, quick=200, thorough=6000)
+    ctx.given(cases(), chk, quick=200, thorough=6000, shrink=os.environ.get('VERIF_NOSHRINK') is None)
 
 
 def replay(case):
